@@ -253,12 +253,25 @@ Definition worker_step (sanit : string -> res string) (root : path) (s : wstate)
 Definition worker (sanit : string -> res string) (root : path) (ts : list task) (s : wstate) : wstate :=
   fold_left (worker_step sanit root) ts s.
 
+(* the same loop, also returning the entry every task has right after its turn
+   (what a caller of do() sees); used by the cases files *)
+Fixpoint worker_trace (sanit : string -> res string) (root : path) (ts : list task) (s : wstate)
+  : list (option entry) * wstate :=
+  match ts with
+  | [] => ([], s)
+  | t :: r =>
+      let s1 := worker_step sanit root s t in
+      let er := worker_trace sanit root r s1 in
+      (env_get (w_env s1) (t_name t) :: fst er, snd er)
+  end.
+
 End Run.
 
 Arguments run {cmd world}.
 Arguments do_task {cmd world}.
 Arguments worker_step {cmd world}.
 Arguments worker {cmd world}.
+Arguments worker_trace {cmd world}.
 Arguments mk_task {cmd}.
 Arguments t_name {cmd}.
 Arguments t_clis {cmd}.
@@ -329,9 +342,12 @@ Definition ctask := task ccmd.
 Definition model_run (ts : list ctask) : wstate unit :=
   worker cexec cecho sanitize croot ts (mk_w tt [] []).
 
+Definition model_trace (ts : list ctask) : list (option entry) * wstate unit :=
+  worker_trace cexec cecho sanitize croot ts (mk_w tt [] []).
+
 Definition check_case (c : list ctask * list obs * files) : bool :=
   let '(ts, os, fl) := c in
-  let s := model_run ts in
+  let es := model_trace ts in
   Nat.eqb (length ts) (length os)
-  && forallb (fun to => entry_matches (env_get (w_env s) (t_name (fst to))) (snd to)) (combine ts os)
-  && files_eqb (flatten_fs (w_fs s)) fl.
+  && forallb (fun eo => entry_matches (fst eo) (snd eo)) (combine (fst es) os)
+  && files_eqb (flatten_fs (w_fs (snd es))) fl.
